@@ -42,7 +42,7 @@ ClassOK(h, v, placeholder) ==
     [] h.c = "oneof"  -> v = h.a \/ v = h.b
     [] h.c = "constvec" -> Len(v) = h.a /\ \A i \in 1..Len(v) : v[i] = h.b
     [] h.c = "member" -> \E i \in 1..Len(h.a) : h.a[i] = v
-    [] h.c = "randcode" -> /\ Size(v) >= 1 /\ Size(v) <= h.a - 1
+    [] h.c = "randcode" -> /\ Size(v) >= 1 /\ Size(v) <= h.a
                            /\ \A i \in 1..Len(Points(v)) :
                                 LET p == Points(v)[i] IN
                                 \/ p.k \in {"list", "bool", "int", "id"}
